@@ -13,6 +13,8 @@ import (
 	"github.com/olive-io/bpmn/v2/pkg/tracing"
 
 	"github.com/olive-io/bpmn/schema"
+
+	"verif/harness/internal/alpha"
 )
 
 // ValueScenario is one unit of C16 work executed in a worker process (so that a
@@ -277,7 +279,16 @@ func engineValue(kind string, res *ValueResult) {
 		res.Mismatches = append(res.Mismatches, "parse: "+err.Error())
 		return
 	}
+	defsBefore := alpha.Print(defs)
 	for vi, v0 := range append(Samples(kind), Samples(kind)...) {
+		if vi > 0 {
+			// the definitions are shared by every instance built from them: running one must not
+			// write into them (what one instance resolved would show up in the next)
+			if now := alpha.Print(defs); now != defsBefore {
+				res.Mismatches = append(res.Mismatches, fmt.Sprintf("engine kind=%s: running an instance changed the definitions model it was built from: %s", kind, alpha.FirstDiff(defsBefore, now)))
+				defsBefore = now
+			}
+		}
 		v := v0
 		asItem := vi >= len(Samples(kind)) // second pass: the task result arrives wrapped as an item
 		res.Checked++
